@@ -61,6 +61,8 @@ def run(module, cfg, cwd, workers=8, timeout=600, env=None, simulate=None, depth
     r.rc = p.returncode
     r.out = p.stdout
     _parse(r)
+    if r.rc in (10, 11, 12, 13) and not r.violated:
+        r.violated = "tlc-exit-%d" % r.rc       # never let a non-zero verdict pass as "no violation"
     if r.rc in (124, 137):
         raise ModelError("TLC timed out after %ss on %s/%s" % (timeout, module, cfg))
     if r.rc not in (0, 10, 11, 12, 13):
@@ -100,7 +102,7 @@ def _parse(r):
     m = re.search(r"Error: Invariant (\S+) is violated", out)
     if m:
         r.violated = m.group(1)
-    m2 = re.search(r"Error: Action property (\S+) is violated", out) or \
+    m2 = re.search(r"Error: Action property (.+?) is violated", out) or \
         re.search(r"Error: Temporal properties were violated", out)
     if m2 and not r.violated:
         r.violated = m2.group(1) if m2.groups() else "temporal"
